@@ -641,7 +641,7 @@ def check(tier: str, replay: Optional[str] = None) -> int:
     if not replay:
         for k in ("archive", "directory", "files", "plain_odx_suffix", "perturbations", "writes", "loads"):
             if not stats.get(k):
-                raise tlc.MachineryError(f"vacuity: {k} = 0 in {stats}")
+                v.vacuous(f"vacuity: {k} = 0 in {stats}")
     space = all_dataclass_fields()
     cov = {"states": res.distinct, "transitions": res.generated,
            "traces_validated_against_impl": stats.get("loads", 0) + stats.get("sessions", 0),
